@@ -149,6 +149,10 @@ def width_of_type(t):
     return None
 
 
+class Unsupported(Exception):
+    pass
+
+
 class Interp:
     def __init__(self, unit, max_depth=6):
         self.unit = unit
@@ -368,6 +372,72 @@ class Interp:
             return None
         # conversion to the return type is in the AST as an implicit cast on the return expression
         return r
+
+    # ---- statement execution with if-conversion (locals only); raises Unsupported otherwise
+    def exec_stmts(self, stmts, env, depth=0):
+        for s in stmts:
+            k = s.get('kind')
+            if k == 'CompoundStmt':
+                self.exec_stmts(list(kids(s)), env, depth)
+                continue
+            if k == 'NullStmt':
+                continue
+            if k == 'DeclStmt':
+                for vd in kids(s):
+                    if vd.get('kind') == 'VarDecl' and kids(vd):
+                        env[vd['id']] = self.cast(self.eval(kids(vd)[-1], env, depth), dtype(vd))
+                continue
+            if k == 'IfStmt':
+                cond, then, els = if_parts(s)
+                c = self.truth(self.eval(cond, env, depth))
+                e1 = dict(env)
+                self.exec_stmts([then], e1, depth)
+                e2 = dict(env)
+                if els is not None and els.get('kind'):
+                    self.exec_stmts([els], e2, depth)
+                for key in set(e1) | set(e2):
+                    a, b = e1.get(key), e2.get(key)
+                    if a is None or b is None:
+                        continue   # declared inside one branch only: out of scope afterwards
+                    if c == 1:
+                        env[key] = a
+                    elif c == 0:
+                        env[key] = b
+                    elif a is b:
+                        env[key] = a
+                    else:
+                        w = max(a.w, b.w)
+                        env[key] = BV(w, [c_ite(c, x, y) for x, y in zip(a.b + [T] * (w - a.w), b.b + [T] * (w - b.w))], a.signed)
+                continue
+            e = strip(s, casts=False)
+            ek = e.get('kind')
+            if ek in ('BinaryOperator', 'CompoundAssignOperator') and e.get('opcode') in ('=', '|=', '&=', '^=', '<<=', '>>=', '+=', '-='):
+                lhs = strip(e['inner'][0], casts=False)
+                rd = ref_decl(lhs)
+                if lhs.get('kind') != 'DeclRefExpr' or rd is None or rd.get('kind') not in ('VarDecl', 'ParmVarDecl'):
+                    raise Unsupported('assignment to a non-local at %s' % loc_str(e))
+                if e.get('opcode') == '=':
+                    v = self.eval(e['inner'][1], env, depth)
+                else:
+                    ct = e.get('computeResultType') or e.get('type')
+                    syn = {'kind': 'BinaryOperator', 'opcode': e['opcode'][:-1], 'type': ct, 'inner': e['inner'], 'range': e.get('range'), '_file': e.get('_file'), '_line': e.get('_line'), '_col': e.get('_col')}
+                    if e['opcode'] in ('<<=', '>>='):
+                        syn['type'] = e.get('computeLHSType') or ct
+                    v = self.eval(syn, env, depth)
+                env[rd['id']] = self.cast(v, dtype(lhs))
+                continue
+            if ek == 'UnaryOperator' and e.get('opcode') in ('++', '--'):
+                lhs = strip(e['inner'][0], casts=False)
+                rd = ref_decl(lhs)
+                if rd is not None and rd.get('id') in env:
+                    x = bv_const(env[rd['id']])
+                    info = width_of_type(dtype(lhs))
+                    if x is not None and info:
+                        env[rd['id']] = const_bv((x + (1 if e['opcode'] == '++' else -1)) & ((1 << info[0]) - 1), info[0], info[1])
+                    else:
+                        env[rd['id']] = top_bv(env[rd['id']].w, env[rd['id']].signed)
+                    continue
+            raise Unsupported('statement %s at %s' % (ek, loc_str(e)))
 
     def eval_block(self, stmts, env, depth):
         for i, s in enumerate(stmts):
